@@ -11,6 +11,19 @@ import numpy as np
 from harness import common as C
 
 TOL = 1e-9
+EPS = 2.220446049250313e-16
+# TOLERANCE RULE (stated once, used everywhere below)
+#  * on-surface residual of the hit point: 2e-12 * (size of the LOCAL coordinates of the hit point), whatever the distance the
+#    ray has travelled: Newton works in the surface frame from the vertex plane, so the residual must not grow with |Z0|;
+#  * hit point on the incident ray, and model vs implementation positions / directions: 1e-9 (relative to max(1, |value|)) plus
+#    16 eps * (distance from the ray origin to the hit point) when the ray is skew to the local axis or the frame is tilted --
+#    a ray given by (origin, direction) is itself only defined to an ulp of that distance; a ray exactly along the local axis
+#    of an untilted surface (the documented "from infinity" form P = [x, y, -1e99], S = [0, 0, 1]) gets NO allowance;
+#    for directions the allowance is multiplied by (1 + 4|c|) / max(0.05, cos of the larger angle to the normal): a position
+#    uncertainty dp becomes a direction uncertainty ~ dp * curvature / cos.
+def _far_allowance(Pin, Pout, Sin, Rm):
+    exact_axis = Rm is None and Sin[0] == 0 and Sin[1] == 0
+    return 0.0 if exact_axis else 16 * EPS * float(np.linalg.norm(np.asarray(Pout) - np.asarray(Pin)))
 
 RULE = ('seeded random prescriptions: single surfaces (plane, sphere, conic kappa in {-2,-1,-0.5,0,1}, off-axis conic '
         'shifted in x or y) reflecting and refracting (n<n\' and n>n\' below the critical angle), decentred and tilted '
@@ -22,7 +35,10 @@ RULE = ('seeded random prescriptions: single surfaces (plane, sphere, conic kapp
         'with normals of random length, make_rotation_matrix, frame transforms, sag/gradient closures at random points and at '
         'the exact vertex, the polar->Cartesian gradient at r=0; glass->air refraction at strongly sloped surface points (gradient '
         'length up to 1.8) at 50%..99.9% of the critical angle about the true normal (unit stream and "nearcrit" rays of the '
-        'traces); off_axis_conic_sag/der in both shift branches against the model and against Richardson derivatives of the same '
+        'traces); ray origins far and very far from the first surface (1e3, 1e5, 1e7, 1e9 length units, either side, tilted and '
+        'decentred frames) and the documented "from infinity" form P = [x, y, -+1e99], S = [0, 0, +-1]; hits 1e-6..1e-12 of the '
+        'aperture away from the vertex; tiny (0.02) and large (300) apertures; intersect() called directly with far origins, a '
+        'non-zero initial guess s1 and a user eps; off_axis_conic_sag/der in both shift branches against the model and against Richardson derivatives of the same '
         'sag; Q-type freeform surfaces (FFp assembled from Q2d_and_der, base conic unshifted / shifted in x / shifted in y) traced '
         'in reflection and refraction, checked against the numerical gradient of their own sag (1e-7).  A case is non-trivial unless the ray is on-axis through an '
         'untilted plane; distinct = distinct (item, input) tuples')
@@ -184,7 +200,8 @@ def check_physics(specs, mats, P_hist, S_hist, n0):
             bad.append(f'surface {j}: hit point off the surface, implicit-equation residual {G:.3e}')
         # the hit point must be on the incoming ray
         d = Pout - Pin
-        if np.linalg.norm(np.cross(d, Sin)) > TOL * max(1.0, float(np.linalg.norm(d))):
+        if np.isfinite(d).all() and np.linalg.norm(np.cross(d / max(1.0, float(np.abs(d).max())), Sin)) * max(1.0, float(np.abs(d).max())) \
+                > TOL * max(1.0, float(np.linalg.norm(d))):
             bad.append(f'surface {j}: hit point is not on the incident ray')
         if abs(np.linalg.norm(Sout) - 1) > TOL:
             bad.append(f'surface {j}: |S\'| = {np.linalg.norm(Sout):.12f} != 1')
@@ -272,14 +289,16 @@ def _unit(theta, az):
     return np.array([math.sin(theta) * math.cos(az), math.sin(theta) * math.sin(az), math.cos(theta)])
 
 
-def _rays_for(rng, spec, Rm, a, nrays, n_in, backward=False, maxang=None):
+def _rays_for(rng, spec, Rm, a, nrays, n_in, backward=False, maxang=None, far=None):
     """rays aimed at chosen points of the surface `spec`, in global coordinates"""
     Rm_ = np.eye(3) if Rm is None else np.asarray(Rm)
     P0 = _pvec(spec['P'])
     sh = spec['shape']
     n1 = spec.get('n', 1.0)
     Ps, Ss, tags = [], [], []
-    kinds = ['axis', 'parax', 'skew', 'nearcrit', 'steep', 'skew', 'parallel', 'parallel']
+    kinds = ['axis', 'parax', 'skew', 'nearcrit', 'steep', 'skew', 'parallel', 'nearvertex']
+    if far == 'infinity':
+        kinds = ['axis', 'parallel', 'nearvertex', 'parallel']      # only rays exactly along the local axis exist "at infinity"
     dense_to_rare = spec['kind'] in ('refr', 'refract') and n_in > n1
     zs = np.array([1.0, 1.0, -1.0]) if backward else np.ones(3)     # backward: the ray travels against the local normal (towards -z)
     for i in range(nrays):
@@ -316,6 +335,10 @@ def _rays_for(rng, spec, Rm, a, nrays, n_in, backward=False, maxang=None):
         elif kind == 'parallel':
             xl, yl = rng.uniform(-0.8, 0.8, 2) * a
             th, az = 0.0, 0.0
+        elif kind == 'nearvertex':
+            # a hit extremely close to (not on) the vertex: 1e-6 .. 1e-12 of the aperture
+            xl, yl = (rng.uniform(-1, 1, 2) * a * 10.0 ** (-rng.uniform(6, 12)))
+            th, az = (0.0, 0.0) if far == 'infinity' else (rng.uniform(0, 0.3), rng.uniform(0, 2 * math.pi))
         else:
             xl, yl = rng.uniform(-0.8, 0.8, 2) * a
             th = rng.uniform(0.05, 0.5) if kind == 'skew' else rng.uniform(0.5, 0.87)
@@ -341,7 +364,12 @@ def _rays_for(rng, spec, Rm, a, nrays, n_in, backward=False, maxang=None):
         if Rm is None:
             Sg = Sl.copy()
             Xg = Xl + P0
-        t = float(rng.uniform(3, 40))
+        if far == 'infinity':
+            t = 1e99                           # the docstring's P = [Px, Py, -1e99], S = [0, 0, 1]
+        elif far is not None:
+            t = float(far * rng.uniform(0.5, 1.5))
+        else:
+            t = float(rng.uniform(3, 40))
         Ps.append(Xg - t * Sg)
         Ss.append(Sg)
         tags.append(kind)
@@ -360,6 +388,12 @@ def _rand_frame(rng, tilted, z=0.0):
 
 def gen_prescription(rng, idx):
     pr = _gen_prescription(rng, idx)
+    blk = (idx // 8) % 5
+    if blk == 1 or blk == 3:
+        # ray origins far and very far from the first surface (1e3 .. 1e9 length units), either side
+        pr['far'] = float(10.0 ** rng.choice([3, 5, 7, 9]))
+    elif blk == 4 and len(pr['specs']) == 1 and pr['specs'][0].get('R') is None:
+        pr['far'] = 'infinity'
     for j, sp in enumerate(pr['specs']):
         sp['form'] = int((idx // 8 + j) % 6)
     return pr
@@ -367,7 +401,7 @@ def gen_prescription(rng, idx):
 
 def _gen_prescription(rng, idx):
     """-> dict(specs=[...], a=semi-aperture, n0=...)"""
-    a = float(rng.choice([2.0, 5.0, 12.5]))
+    a = float(rng.choice([2.0, 5.0, 12.5, 0.02, 300.0], p=[0.3, 0.3, 0.3, 0.05, 0.05]))   # incl. tiny and large apertures
     mode = idx % 8
     n0 = 1.0
     if mode == 6:                           # a stop / dummy plane INSIDE the glass (n=None), then the glass ends
@@ -591,7 +625,7 @@ def correspondence(ctx):
             if not _cmp(sf_.P, _pvec(sp['P'])):
                 ctx.pred_fail('surface_frame', {'kind': 'refl', 'P': list(sp['P']), 'R': None, 'shape': ['plane'], 'form': sp.get('form', 0)},
                               f'Surface.P = {np.asarray(sf_.P).tolist()} for the documented position form')
-        P, S, tags = _rays_for(rng, specs[0], mats[0], pr['a'], nrays, pr['n0'], maxang=pr.get('maxang'), backward=pr.get('backward', False))
+        P, S, tags = _rays_for(rng, specs[0], mats[0], pr['a'], nrays, pr['n0'], maxang=pr.get('maxang'), backward=pr.get('backward', False), far=pr.get('far'))
         for single in ((False, True) if (idx // 8) % 2 == 0 else (False,)):
             try:
                 P_hist, S_hist, _ = run_impl(specs, P, S, pr['n0'], single=single)
@@ -728,6 +762,13 @@ def correspondence(ctx):
                     continue
                 bad = check_physics(specs, mats, ph, sh, n0)
                 ctx.hist['trace:checked'] += 1
+                dist0 = float(np.linalg.norm(ph[1] - ph[0]))
+                if dist0 > 1e50:
+                    ctx.hist['trace:checked/origin-at-1e99'] += 1
+                elif dist0 > 500:
+                    ctx.hist[f'trace:checked/origin-far-1e{int(round(math.log10(dist0)))}'] += 1
+                if tags[i] == 'nearvertex':
+                    ctx.hist['trace:checked/nearvertex'] += 1
                 ctx.hist[f'trace:checked/{k}surf'] += 1
                 if tags[i] == 'nearcrit':
                     ctx.hist['trace:checked/nearcrit'] += 1
@@ -735,8 +776,17 @@ def correspondence(ctx):
                     ctx.hist['trace:checked/refraction-against-the-normal'] += 1
                 for b in bad[:1]:
                     ctx.pred_fail('trace', case, b)
+                allow = 0.0
                 for j in range(k):
-                    if not (_cmp(ph[j + 1], model[j]['Pg'], float(np.abs(model[j]['Pg']).max())) and _cmp(sh[j + 1], model[j]['Sg'])):
+                    # far origins: see the tolerance rule at the top of this file; the allowance of an earlier leg carries on
+                    allow += _far_allowance(ph[j], ph[j + 1], sh[j], mats[j]) / TOL
+                    # a position uncertainty dp turns into a direction uncertainty ~ dp * curvature / cos(angle to the normal)
+                    rh = model[j]['r'] / np.linalg.norm(model[j]['r'])
+                    cosmin = max(0.05, min(abs(float(model[j]['Sloc'] @ rh)), abs(float(model[j]['Sout'] @ rh))))
+                    shp = specs[j]['shape']
+                    allow_dir = allow * (1 + 4 * abs(shp[1] if len(shp) > 1 else 0.0)) / cosmin
+                    if not (_cmp(ph[j + 1], model[j]['Pg'], float(np.abs(model[j]['Pg']).max()) + allow)
+                            and _cmp(sh[j + 1], model[j]['Sg'], 1.0 + allow_dir)):
                         ctx.disagree('trace', case, {'surface': j, 'P': ph[j + 1].tolist(), 'S': sh[j + 1].tolist()},
                                      {'P': model[j]['Pg'].tolist(), 'S': model[j]['Sg'].tolist()})
                         break
@@ -849,7 +899,57 @@ def correspondence(ctx):
                 ctx.pred_fail('frames', case, 'local/global frame change is not an exact rigid motion')
 
     _qtype_stream(ctx)
+    _intersect_stream(ctx)
     _floors(ctx)
+
+
+def intersect_eval(c):
+    """spencer_and_murty.intersect called directly (local frame): far origins, a non-zero initial guess s1, a user eps"""
+    sf, sm, co = _impl()
+    surf = build_surface({'kind': 'refl', 'P': [0.0, 0.0, 0.0], 'R': None, 'shape': tuple(c['shape'])})
+    P0 = np.array([c['P']], dtype=float)
+    S = np.array([c['S']], dtype=float)
+    kw = {}
+    if c.get('eps') is not None:
+        kw['eps'] = c['eps']
+    with np.errstate(all='ignore'):
+        Pj, r = sm.intersect(P0, S, surf.sag_normal, c.get('s1', 0), **kw)
+    X = np.asarray(Pj)[0]
+    if not np.isfinite(X).all():
+        return [f'intersect lost the ray: {X.tolist()}']
+    G, N = implicit(tuple(c['shape']), X)
+    scale = max(1.0, float(np.abs(X).max()))
+    tol = max(2e-12, 4 * (c.get('eps') or 0.0)) * scale * max(1.0, float(np.linalg.norm(N)))
+    bad = []
+    if abs(G) > tol:
+        bad.append(f'intersect: point off the surface, implicit-equation residual {G:.3e} (ray origin at distance {np.linalg.norm(P0[0] - X):.3g})')
+    d = X - P0[0]
+    if np.linalg.norm(np.cross(d / max(1.0, float(np.abs(d).max())), S[0])) > TOL:
+        bad.append('intersect: point is not on the ray')
+    if np.abs(np.cross(np.asarray(r)[0], N)).max() > 1e-9 * max(1.0, float(np.linalg.norm(N))):
+        bad.append('intersect: returned normal is not parallel to the surface normal at the returned point')
+    return bad
+
+
+def _intersect_stream(ctx):
+    rng = ctx.rng
+    for i in range(ctx.scale(60, 800)):
+        a = float(rng.choice([2.0, 5.0, 12.5]))
+        sh = _rand_shape(rng, a)
+        if sh[0] == 'plane' and i % 4:
+            sh = ('conic', 0.3 / a, -1.0)
+        spec = {'kind': 'refl', 'P': [0.0, 0.0, 0.0], 'R': None, 'shape': sh}
+        far = [None, 1e3, 1e6, 1e9, 'infinity'][i % 5]
+        P, S, _ = _rays_for(rng, spec, None, a, 1, 1.0, backward=bool(i % 2), far=far)
+        c = {'shape': list(sh), 'P': P[0].tolist(), 'S': S[0].tolist(), 's1': [0, 0.5, -0.25][i % 3] if far != 'infinity' else 0,
+             'eps': [None, 1e-10][(i // 3) % 2]}
+        ctx.case('intersect', c, tag=f'far={far}/s1={c["s1"]}/eps={c["eps"]}')
+        try:
+            bad = intersect_eval(c)
+        except Exception as ex:
+            bad = [f'intersect raised {type(ex).__name__}: {ex}']
+        for b in bad[:1]:
+            ctx.pred_fail('intersect', c, b)
 
 
 def _floors(ctx):
@@ -857,7 +957,8 @@ def _floors(ctx):
     h = ctx.hist
     ntr = ctx.items.get('trace', 0)
     need = {'trace:checked': 0.7 * ntr, 'trace:checked/1surf': 0.3 * ntr, 'trace:checked/2surf': 0.03 * ntr,
-            'trace:checked/3surf': 0.1 * ntr, 'trace:checked/nearcrit': 3, 'trace:checked/refraction-against-the-normal': 0.02 * ntr,
+            'trace:checked/3surf': 0.1 * ntr, 'trace:checked/nearcrit': 3, 'trace:checked/origin-at-1e99': 0.01 * ntr,
+            'trace:checked/nearvertex': 0.05 * ntr, 'trace:checked/refraction-against-the-normal': 0.02 * ntr,
             'refract:near-critical-sloped': 100, 'off_axis_polar:dx': 30, 'off_axis_polar:dy': 30,
             'qtype_trace:refl/dx': 10, 'qtype_trace:refr/dx': 10, 'qtype_trace:refl/dy': 10, 'qtype_trace:refr/dy': 10}
     low = {k: (h.get(k, 0), int(v)) for k, v in need.items() if h.get(k, 0) < v}
@@ -916,6 +1017,9 @@ def _corpus():
 def search(ctx, hints):
     """small scope first: one conic surface at the origin, simplest rays; then the failing correspondence cases"""
     cands = [c for (it, c) in _corpus() if it == 'trace']
+    for z0 in (-1e9, 1e9, -1e99):
+        cands.append({'surfaces': [{'kind': 'refl', 'P': [0.0, 0.0, 0.0], 'R': None, 'shape': ['conic', 0.02, -0.5], 'n': 1.0}],
+                      'P': [3.0, 4.0, z0], 'S': [0.0, 0.0, 1.0 if z0 < 0 else -1.0], 'n0': 1.0, 'api': 'batch'})
     for kind in ('refl', 'refr'):
         for sh in (('conic', -0.01, -1.0), ('sphere', 0.02), ('plane',), ('offaxis', -0.01, -1.0, 0.0, 20.0), ('offaxis', -0.01, 0.0, 15.0, 0.0)):
             for (p, s) in (([0.0, 0.0, -10.0], [0.0, 0.0, 1.0]), ([5.0, 0.0, -10.0], [0.0, 0.0, 1.0]),
@@ -1005,6 +1109,11 @@ def replay(inp):
         if out is not None:
             print('P_hist', out[0].tolist())
             print('S_hist', out[1].tolist(), ' |S| =', np.linalg.norm(out[1], axis=1).tolist())
+        for b in bad:
+            print('  ', b)
+        return bool(bad)
+    if item == 'intersect':
+        bad = intersect_eval(c)
         for b in bad:
             print('  ', b)
         return bool(bad)
